@@ -87,6 +87,7 @@ type VFD struct {
 
 	RdIntr int // number of upcoming read calls answered with EINTR before the queue is looked at
 
+	Refusals  int64 // write-like calls answered EAGAIN or with a short count (the socket buffer is full)
 	Reads     int64 // number of read calls
 	ReadsIdle int64 // number of read calls that found nothing (EAGAIN)
 	Writes    int64 // number of write-like calls
@@ -156,15 +157,22 @@ func (v *VFD) answer(want int) (int, error) {
 		return ZeroLen(v)
 	}
 	if len(v.Script) == 0 {
+		v.Refusals++
 		return -1, syscall.EAGAIN // exhausted script: kernel is full from now on
 	}
 	a := v.Script[0]
 	v.Script = v.Script[1:]
 	if a.Err != 0 {
+		if a.Err == syscall.EAGAIN {
+			v.Refusals++
+		}
 		return -1, a.Err
 	}
 	if a.N > want {
 		a.N = want
+	}
+	if a.N < want {
+		v.Refusals++
 	}
 	return a.N, nil
 }
@@ -304,8 +312,15 @@ func Sendfile(out, in int, off *int64, count int) (int, error) {
 	return syscall.Sendfile(out, in, off, count)
 }
 
+// CloseHook, when set, is called at the entry of Close on a virtual descriptor, before it is marked
+// closed: a yield point inside a connection's teardown (after the closed flag was set).
+var CloseHook func(fd int)
+
 func Close(fd int) error {
 	if v := get(fd); v != nil {
+		if h := CloseHook; h != nil {
+			h(fd)
+		}
 		v.mu.Lock()
 		v.Closed = true
 		v.Log = append(v.Log, "close")
